@@ -3,7 +3,7 @@
 const path = require('path')
 const { encodeMap } = require('./smap')
 
-const SITE_KINDS = ['body', 'operand', 'multiline', 'double', 'arrow', 'method', 'eval', 'evalfn', 'msg-loc', 'builtin-callback', 'far-column', 'callback', 'msg-newline', 'throw', 'helper', 'msg-at']
+const SITE_KINDS = ['body', 'operand', 'multiline', 'double', 'arrow', 'method', 'eval', 'evalfn', 'msg-loc', 'builtin-callback', 'far-column', 'recursive', 'callback', 'msg-newline', 'throw', 'helper', 'msg-at']
 
 // returns {text, sites:[{k, kind, fn, line, cbLine?}], kind, omap?}
 function genVersion (rng, fi, vi, kind, o) {
@@ -55,6 +55,16 @@ function genVersion (rng, fi, vi, kind, o) {
           site.line = add(`  const e = new Error(${msg})`)
           add('  return e')
         }
+        add('}')
+        break
+      }
+      case 'recursive': {
+        // one statement over three original lines, printed on one generated line: the frames of the recursion
+        // share the generated line but not the original one
+        add(`function ${N} (x, n) {`)
+        add('  return (n || 0) < 2 ? keep(1,')
+        site.cbLine = add(`    ${N}(x, (n || 0) + 1))`)
+        site.line = add(plain ? "    : new Error('rec')" : "    : new Error(x + 'rec')")
         add('}')
         break
       }
@@ -206,6 +216,14 @@ function genVersion (rng, fi, vi, kind, o) {
     const split = rng.chance(1, 3) ? rng.range(Math.max(gap + 1, 2), Math.max(gap + 2, nLines - 2)) : 0
     const lineOf = (L) => split && L >= split ? (L - split) * mult + ((split - 1) * mult + off) : L * mult + off
     for (let L = gap; L < nLines; L++) toks.push({ gl: L, gc: 0, src: split && L >= split ? 1 : 0, sl: lineOf(L), sc: 0, name: null })
+    // a region in the middle that the transpiler generated itself: segments without a source (babel / esbuild
+    // helpers); positions there have no original location
+    let hole = null
+    if (rng.chance(1, 4) && nLines - gap > 8) {
+      const h1 = rng.range(gap + 1, nLines - 4); const h2 = Math.min(nLines - 1, h1 + rng.range(2, 8))
+      for (const t of toks) if (t.gl >= h1 && t.gl < h2) { t.src = null }
+      hole = [h1, h2]
+    }
     // relative to the file's folder, or absolute (bundlers emit both)
     const source = rng.pick(['../ts/orig.ts', `src/f${fi}.ts`, `f${fi}v${vi}.ts`, `/abs/src/f${fi}.ts`])
     const source2 = `src/second_f${fi}.ts`
@@ -213,7 +231,7 @@ function genVersion (rng, fi, vi, kind, o) {
     // real maps repeat entries of `sources` (a bundle input listed twice): the tokens then use the later index
     if (rng.chance(1, 4)) {
       const shift = split ? 1 : 2
-      for (const t of toks) if (!split || t.src === 1) t.src += shift
+      for (const t of toks) if (t.src != null && (!split || t.src === 1)) t.src += shift
       var srcList = split ? [source, source, source2] : ['unused.ts', 'unused.ts', source]
     }
     const m = { file: path.basename(o.file), sources: srcList || (split ? [source, source2] : [source]), names: [], toks }
@@ -222,7 +240,7 @@ function genVersion (rng, fi, vi, kind, o) {
     // a sourceRoot is not put in front of an absolute source
     const root = (x) => sourceRoot && !x.startsWith('/') ? sourceRoot.replace(/\/$/, '') + '/' + x : x
     const rooted = root(source)
-    v.omap = { json, mult, off, source: rooted, source2: root(source2), split, mode: o.omap, gap }
+    v.omap = { json, mult, off, source: rooted, source2: root(source2), split, mode: o.omap, gap, hole }
     if (o.omap === 'inline') {
       lines.push('//# sourceMappingURL=data:application/json;base64,' + Buffer.from(json).toString('base64'))
     } else {
